@@ -464,8 +464,14 @@ class _C06Base(SubCheck):
             al = [(n, f, s, c, [ord(ch) for ch in q], ql) for n, f, s, c, q, ql in alns]
             for reference in (None, [ord(c) for c in ref]):
                 for ov in (0, 2):
-                    a = self._sym.run(ov, vs, reference, al)
-                    b = self._real.run(ov, vs, reference, al)
+                    # whether the result is *right* is the sub-checks' business; here only: do both worlds agree
+                    def outcome(world):
+                        try:
+                            return world.run(ov, vs, reference, al)
+                        except Exception as ex:  # noqa
+                            return "raised " + type(ex).__name__
+
+                    a, b = outcome(self._sym), outcome(self._real)
                     if a != b:
                         raise RuntimeError("self-test: symbolic world and real build disagree on %r: %r vs %r" % ((variants, reference, alns, ov), a, b))
 
